@@ -225,12 +225,12 @@ func c15bAttachment(maxNonPlain int, only []string) {
 		alt string
 		got int
 	}{{" @immutable", onC(immT)}, {" @constructor New, Make", onC(ctorT)}, {" @implements &pk.Iface", onC(implT)}, {" @testonly", onC(testT)}, {" @packageonly w", onC(pkgT)}} {
-		nd.Assert(nd.Implies(is("s15", k.alt), k.got >= 1), "the own doc of a member of a type(...) group takes effect on that member")
-		nd.Assert(nd.Implies(nd.And(nd.Not(is("s15", k.alt)), nd.Not(is("s2", k.alt))), k.got == 0), "no annotation on a group member without an annotation line in its own or the group's doc")
-		nd.Assert(k.got <= 1, "at most one annotation of a kind on the group member")
+		// the group's doc applies to every member, a member's own doc adds to it (C12: an ordinary comment above a member must
+		// not switch the group's annotations off); the same keyword in both docs may yield one or two records
+		nd.Assert((k.got >= 1) == nd.Or(is("s15", k.alt), is("s2", k.alt)), "a member of a type(...) group carries the annotations of its own doc and of the group's doc")
 	}
-	nd.Assert(nd.Implies(nd.And(is("s16", " @mutable"), is("s15", " @immutable")), onC(mutT) == 1), "@mutable on the field of a group member that is @immutable by its own doc")
-	nd.Assert(nd.Implies(nd.Or(nd.Not(is("s16", " @mutable")), nd.And(nd.Not(is("s15", " @immutable")), nd.Not(is("s2", " @immutable")))), onC(mutT) == 0), "no @mutable on the group member's field otherwise")
+	gImm := nd.Or(is("s15", " @immutable"), is("s2", " @immutable"))
+	nd.Assert((onC(mutT) >= 1) == nd.And(is("s16", " @mutable"), gImm), "@mutable on the field of a group member that is @immutable by its own or the group's doc")
 	for _, a := range ann.ImmutableAnnotations {
 		nd.Assert(nd.Or(nd.And(a.OnType == "A", is("s1", " @immutable")), nd.And(a.OnType == "B", is("s2", " @immutable")), nd.And(a.OnType == "A2", a2Imm), a.OnType == "G"), "@immutable attached to the documented type")
 	}
